@@ -93,9 +93,29 @@ func (cfg *Config) PathConfigs(path string) []PathConfig {
 	return ret
 }
 
+// rejectNullTaggedCollections reports a sequence or mapping tagged `!!null` explicitly. go-yaml does not call
+// UnmarshalYAML for such a node and decodes its children into zero values (e.g. a zero *regexp.Regexp).
+func rejectNullTaggedCollections(n *yaml.Node) error {
+	if (n.Kind == yaml.SequenceNode || n.Kind == yaml.MappingNode) && n.ShortTag() == "!!null" {
+		return fmt.Errorf("yaml: line %d: `!!null` tag cannot be put on a sequence or mapping", n.Line)
+	}
+	for _, c := range n.Content {
+		if err := rejectNullTaggedCollections(c); err != nil {
+			return err
+		}
+	}
+	return nil
+}
+
 // ParseConfig parses the given bytes as an actionlint config file. When deserializing the YAML file
 // or the config validation fails, this function returns an error.
 func ParseConfig(b []byte) (*Config, error) {
+	var n yaml.Node
+	if err := yaml.Unmarshal(b, &n); err == nil {
+		if err := rejectNullTaggedCollections(&n); err != nil {
+			return nil, err
+		}
+	}
 	var c Config
 	if err := yaml.Unmarshal(b, &c); err != nil {
 		msg := strings.ReplaceAll(err.Error(), "\n", " ")
